@@ -8,11 +8,12 @@ goes into the evidence.  Anything unexpected raises LostAnchor -> the check exit
 """
 import os, re, sys, json, hashlib
 sys.path.insert(0, os.path.dirname(os.path.abspath(__file__)))
-from rustscan import items, lex_spans, strip_attrs_and_docs, ScanError, match_close
+from rustscan import items, lex_spans, strip_attrs_and_docs, ScanError, match_close, Item
 
 class LostAnchor(Exception):
     pass
 
+BROADCAST_IN_LOOPS = ['broadcast use lib::group_lib;']
 # optional extraction groups -> the contract container they feed
 GROUP_CONTAINERS = {'flags': 'Rule'}
 
@@ -115,6 +116,7 @@ class Out:
         self.force_assume = {}   # qualified fn name -> reason (set by the driver after Verus rejected the fn)
         self.unreachable = {}    # qualified fn name -> reason
         self.failed_groups = {}  # optional group -> reason
+        self.broadcast_stmt = 'broadcast use lib::group_lib;'
     def emit(self, text):
         for l in text.split('\n'):
             self.lines.append(l)
@@ -289,7 +291,7 @@ def insert_loop_contracts(fn, body, contract, out_clause_sink):
                 chunks.append(head.rstrip() + '\n')
                 chunks.append(('loop', ordinal))
                 # X11 also applies to loop bodies (Verus verifies them in isolation)
-                chunks.append('{ proof { broadcast use lib::group_lib; }')
+                chunks.append('{ proof { %s }' % out_clause_sink.broadcast_stmt)
                 last = spans[j][1] + 1
             ordinal += 1
             k = j + 1
@@ -405,7 +407,7 @@ def emit_fn(out, item, relfile, container, contracts, in_trait_decl=False, inden
         if mode == 'verify':
             # X11: every verified body starts with the same ghost statement making the proved library
             # lemmas available (ghost code, erased by Verus; a module-level `broadcast use` would be cyclic)
-            out.emit(indent + '    broadcast use lib::group_lib;')
+            out.emit(indent + '    ' + out.broadcast_stmt)
         buf = ''
         for ch in (chunks if chunks is not None else [body]):
             if isinstance(ch, tuple):
@@ -573,3 +575,63 @@ def extract(repo, plan, contracts, out):
     unused = [k for k, c in contracts.items() if not c.used]
     if unused:
         raise LostAnchor('contracts without a function in the tree: %r' % unused)
+
+
+# --------------------------------------------------------------------------------------
+# generated code (layer G): the output of the tree's generator for a schema grammar, formatted with rustfmt
+# --------------------------------------------------------------------------------------
+X15_RE = re.compile(r'parse_(\w+)\(state(?:\.clone\(\))?, &mut \*global\)\s*\.map_inner\(\|result\| vec!\[result\]\)')
+
+def rewrite_generated_body(fn, body, log):
+    """X15: `parse_X(..).map_inner(|result| vec![result])` gets the closure's type and contract spelled out
+    (Verus knows nothing about an unannotated closure); X = the rule type, taken from the call it is attached to."""
+    def rep(m):
+        t = m.group(1)
+        log.append({'rule': 'X15', 'fn': fn, 'what': 'closure `|result| vec![result]` after parse_%s typed and given its contract' % t})
+        return m.group(0).replace('|result| vec![result]', '|result: %s| -> (v: Vec<%s>) ensures v@ =~= seq![result] { vec![result] }' % (t, t))
+    return X15_RE.sub(rep, body)
+
+def emit_generated_module(out, src, lo, hi, modpath, contracts, relfile, indent=''):
+    """emit the items of src[lo:hi] (a module body of the generated file), recursing into nested modules"""
+    for it in items(src, lo, hi):
+        kind, name = header_kind_name(it.header)
+        if kind == 'use':
+            out.log.append({'rule': 'X1', 'fn': modpath, 'what': 'dropped `%s`' % it.header[:60]})
+            continue
+        if kind == 'mod':
+            out.emit(indent + 'pub mod %s {' % name)
+            out.emit(indent + '    use super::*;')
+            emit_generated_module(out, src, it.body_open + 1, it.body_close, modpath + '::' + name if modpath else name, contracts, relfile, indent + '    ')
+            out.emit(indent + '}')
+            continue
+        if kind in ('struct', 'enum', 'type'):
+            kept, dropped = strip_attrs_and_docs(it.text)
+            for l in kept.strip('\n').split('\n'): out.emit(indent + l)
+            continue
+        if kind == 'impl':
+            out.log.append({'rule': 'X8', 'fn': modpath or 'top', 'what': 'not extracted: `%s` (public entry point, calls the rule wrapper)' % it.header[:70]})
+            continue
+        if kind == 'fn':
+            if '(|| {' in it.body or '(||{' in it.body:
+                out.log.append({'rule': 'X8', 'fn': (modpath + '::' if modpath else '') + name, 'what': 'not extracted: rule wrapper (closure capturing &mut global: outside Verus)'})
+                continue
+            if '.choice(|' in it.body or '.and_then(|' in it.body or '.or_else(|' in it.body:
+                out.log.append({'rule': 'X8', 'fn': (modpath + '::' if modpath else '') + name, 'what': 'not extracted: closure capturing &mut global or the moved state (choice / whitespace / optional template)'})
+                continue
+            sub = Item(src, it.start, it.end, it.attrs_end, it.header_end, it.body_open, it.body_close)
+            # body rewrite X15 happens through a shim item whose text carries the rewritten body
+            newbody = rewrite_generated_body((modpath + '::' if modpath else '') + name, it.body, out.log)
+            shim_src = src[:it.body_open + 1] + newbody + src[it.body_close:]
+            delta = len(newbody) - len(it.body)
+            shim = Item(shim_src, it.start, it.end + delta, it.attrs_end, it.header_end, it.body_open, it.body_close + delta)
+            emit_fn(out, shim, relfile, modpath or '-', contracts, indent=indent)
+            out.emit('')
+            continue
+        raise LostAnchor('generated code: unexpected item %r in %s' % (it.header[:60], modpath))
+
+def extract_generated(gen_text, schema, contracts, out):
+    out.emit('// ===== generated by the tree\'s generator for schema %s (rustfmt-ed, otherwise unmodified) =====' % schema)
+    emit_generated_module(out, gen_text, 0, len(gen_text), '', contracts, 'generated/' + schema)
+    unused = [k for k, c in contracts.items() if not c.used and k[0] == 'generated/' + schema]
+    if unused:
+        raise LostAnchor('contracts without a function in the generated code of %s: %r' % (schema, unused))
